@@ -80,7 +80,7 @@ func runC07(c *Ctx) {
 	c07HeaderLists(c)
 	c.Rule("C07.O12", "E5", "a pooled nbhttp object (request, response, body reader) is recycled only by the library's own release path: no sync.Pool.Put of it is reachable from an exported method of its type, which the application may call while the library still holds the object and will release it again", 3)
 	c07PoolRecyclers(c)
-	c.Rule("C07.O13", "E5", "multi-line fields are decided over all their lines: the request's close decision does not read Connection through Header.Get (first line only)", 1)
+	c.Rule("C07.O13", "E5", "multi-line fields are decided over all their lines: the request's close decision does not read Connection through Header.Get (first line only), and every line is split into its comma-separated options", 2)
 	c.Rule("C07.O14", "E5", "header and trailer names are canonicalised by net/http's own function: every non-empty value stored into Parser.headerKey is the direct result of http.CanonicalHeaderKey (a private fast path with a different word rule gives different map keys)", 4)
 	c07NamesAndLines(c)
 	c.Rule("C07.O4", "E8", "request.Close: major<1 -> true; 1.0 -> hasClose || !keepAlive; else hasClose, with hasClose / keepAlive set by the Connection values \"close\" / \"keep-alive\"", 1)
@@ -690,6 +690,29 @@ func c07NamesAndLines(c *Ctx) {
 			}
 		}
 		c.Cond(bad == "", "C07.O13", fnKey(c.P, oc, "all Connection lines"), c.FnPos(oc), "Connection is not read through Header.Get", bad)
+		// each line is a list: the compared option comes out of strings.Split(line, ",")
+		split := false
+		for _, cs := range c.P.CallsNamed(oc, "strings.ToLower") {
+			dep := map[ssa.Value]bool{}
+			for _, sp := range c.P.CallsNamed(oc, "strings.Split") {
+				if sep, ok := constString(sp.Common.Args[1]); ok && sep == "," {
+					for v := range c.dependsOn(oc, sp.Value()) {
+						dep[v] = true
+					}
+				}
+			}
+			arg := cs.Common.Args[0]
+			for i := 0; i < 3; i++ {
+				if call, ok := ir.Resolve(arg).(*ssa.Call); ok && strings.HasPrefix(c.P.CalleeName(&call.Call), "strings.Trim") {
+					arg = call.Call.Args[0]
+				}
+			}
+			if dep[arg] || dep[ir.Resolve(arg)] {
+				split = true
+			}
+		}
+		c.Cond(split, "C07.O13", fnKey(c.P, oc, "Connection options split on commas"), c.FnPos(oc), "the option compared with close / keep-alive is an element of strings.Split(line, \",\")",
+			"the close decision compares whole Connection field lines with \"close\" / \"keep-alive\": 'Connection: close, TE' keeps the connection open and 'Connection: keep-alive, TE' (HTTP/1.0) closes it, unlike net/http, which reads the field as a comma-separated list")
 	}
 	if parse := c.Fn("C07.O14", "(*nbhttp.Parser).Parse"); parse != nil {
 		n := 0
